@@ -530,7 +530,7 @@ impl<S: Storage> Builder<S> {
 
         let (tx, rx) = async_broadcast::broadcast(16);
         #[cfg(feature = "verif")]
-        let verif_name = name.clone();
+        let verif_name = format!("{id}.{name}");
         let handle = tokio::task::Builder::default()
             .name(&format!("{id}.{name}"))
             .spawn(
